@@ -1,6 +1,7 @@
 (** Specification and proofs for the access lists (C03). *)
 From Coq Require Import List NArith Bool Lia.
 From AGH Require Import Base.Run Base.NetAddr Base.RuleEngine Model.Access.
+From AGH Require Base.Bytes Base.Dom Model.ClientID Proofs.ClientID.
 Import ListNotations.
 Local Open Scope N_scope.
 
@@ -337,7 +338,7 @@ Proof. repeat split. Qed.
 
 Definition ex_host_rule : rule :=
   RNet (mkNRule 0 false [124;124;65;46;116;101;115;116;94] false false [] []
-          (mkClients [] []) (mkClients [] []) []).    (* ||A.test^ *)
+          (mkClients [] []) (mkClients [] []) [] [] [] None).    (* ||A.test^ *)
 
 Example blocked_request_satisfiable :
   blocked_request (new_access [] [] [ex_host_rule]) (Some ex_ip) []
@@ -348,4 +349,543 @@ Proof.
   split.
   - right. do 2 eexists. split; [reflexivity | vm_compute; reflexivity].
   - intros [H|(n & qt & Hq & Hh)]; [discriminate|]. inversion Hq; subst. vm_compute in Hh. discriminate.
+Qed.
+
+(** * HandleBefore with ClientID extraction and the ClientID cache *)
+
+Module CID := AGH.Model.ClientID.
+Module CIDP := AGH.Proofs.ClientID.
+
+(** The lower-casing of the extraction (Base/Bytes.v) and of the access lists
+    (Base/RuleEngine.v) are the same function. *)
+Lemma lower_same s : Base.Bytes.lower s = lower s.
+Proof. reflexivity. Qed.
+
+(** ** What the hook returns *)
+
+Lemma handle_before_blocked a p ip id q :
+  blocked_request a ip id q -> handle_before a p (Some id) ip q = pre_blocked p.
+Proof.
+  intros Hb. unfold handle_before.
+  destruct Hb as [He|(name & qt & -> & Hh)].
+  - unfold excluded in He. rewrite He. reflexivity.
+  - destruct (fst (is_blocked_client a ip id)); [reflexivity|]. rewrite Hh. reflexivity.
+Qed.
+
+Lemma handle_before_admitted a p ip id q :
+  ~ blocked_request a ip id q ->
+  handle_before a p (Some id) ip q = BContinue (match id with [] => None | _ => Some id end).
+Proof.
+  intros Hn. unfold handle_before.
+  destruct (fst (is_blocked_client a ip id)) eqn:E.
+  - exfalso. apply Hn. left. exact E.
+  - destruct q as [[name qt]|]; [|reflexivity].
+    destruct (is_blocked_host a (normalize_domain name) qt) eqn:Eh; [|reflexivity].
+    exfalso. apply Hn. right. exists name, qt. split; [reflexivity | exact Eh].
+Qed.
+
+Definition let_through (b : before) : Prop := exists o, b = BContinue o.
+
+Definition secure_proto (p : proto) : Prop := p = PTLS \/ p = PHTTPS \/ p = PQUIC.
+
+Lemma pre_blocked_not_through p : ~ let_through (pre_blocked p).
+Proof. intros [o H]. destruct p; discriminate. Qed.
+
+(** The ClientID extraction fails only over DoT, DoH and DoQ: a plain or
+    DNSCrypt request is never answered SERVFAIL by the hook. *)
+Lemma extraction_error_secure t x : extract_clientid t x = None -> secure_proto (cx_proto x).
+Proof.
+  unfold extract_clientid, secure_proto. destruct (cx_proto x); cbn; intros H;
+    try discriminate; auto.
+Qed.
+
+Lemma plain_no_clientid t x :
+  ~ secure_proto (cx_proto x) -> extract_clientid t x = Some [].
+Proof.
+  unfold extract_clientid, secure_proto. destruct (cx_proto x); cbn; intros H;
+    try reflexivity; exfalso; apply H; auto.
+Qed.
+
+(** ** The cache *)
+
+Lemma cache_find_app_none k c1 c2 :
+  cache_find k c1 = None -> cache_find k (c1 ++ c2) = cache_find k c2.
+Proof.
+  induction c1 as [|[k' v'] c1 IH]; cbn [cache_find app]; [reflexivity|].
+  destruct (k' =? k); [discriminate | exact IH].
+Qed.
+
+Lemma cache_find_remove_same k c : cache_find k (cache_remove k c) = None.
+Proof.
+  induction c as [|[k' v'] c IH]; [reflexivity|].
+  unfold cache_remove in *. cbn [filter fst].
+  destruct (k' =? k) eqn:E; cbn [negb]; [exact IH|].
+  cbn [cache_find]. rewrite E. exact IH.
+Qed.
+
+Lemma cache_find_remove_none k k' c :
+  cache_find k c = None -> cache_find k (cache_remove k' c) = None.
+Proof.
+  induction c as [|[k0 v0] c IH]; [reflexivity|].
+  unfold cache_remove in *. cbn [cache_find filter fst].
+  destruct (k0 =? k) eqn:E; [discriminate|]. intros H.
+  destruct (k0 =? k'); cbn [negb]; [exact (IH H)|].
+  cbn [cache_find]. rewrite E. exact (IH H).
+Qed.
+
+Lemma cache_remove_app k c1 c2 :
+  cache_remove k (c1 ++ c2) = cache_remove k c1 ++ cache_remove k c2.
+Proof. apply filter_app. Qed.
+
+Lemma cache_remove_length k c : (length (cache_remove k c) <= length c)%nat.
+Proof.
+  unfold cache_remove. induction c as [|e c IH]; cbn [filter length]; [lia|].
+  destruct (negb (fst e =? k)); cbn [length]; lia.
+Qed.
+
+Lemma cache_find_set_same cap c k v : cache_find k (cache_set cap c k v) = Some v.
+Proof.
+  unfold cache_set. rewrite cache_find_app_none by apply cache_find_remove_same.
+  cbn [cache_find]. rewrite N.eqb_refl. reflexivity.
+Qed.
+
+(** A hit returns the stored value and keeps it stored. *)
+Lemma cache_get_hit c k v :
+  cache_find k c = Some v ->
+  snd (cache_get c k) = Some v /\ cache_find k (fst (cache_get c k)) = Some v.
+Proof.
+  intros H. unfold cache_get. rewrite H. cbn [fst snd]. split; [reflexivity|].
+  rewrite cache_find_app_none by apply cache_find_remove_same.
+  cbn [cache_find]. rewrite N.eqb_refl. reflexivity.
+Qed.
+
+Lemma cache_get_miss c k : cache_find k c = None -> cache_get c k = (c, None).
+Proof. intros H. unfold cache_get. rewrite H. reflexivity. Qed.
+
+(** [k] is stored with value [v] and at most [n] entries are more recently
+    used. *)
+Definition stored_recent (k : N) (v : bytes) (n : nat) (c : cid_cache) : Prop :=
+  exists pre post, c = pre ++ (k, v) :: post /\ cache_find k pre = None /\ (length post <= n)%nat.
+
+Lemma stored_recent_find k v n c : stored_recent k v n c -> cache_find k c = Some v.
+Proof.
+  intros (pre & post & -> & Hp & _). rewrite cache_find_app_none by exact Hp.
+  cbn [cache_find]. rewrite N.eqb_refl. reflexivity.
+Qed.
+
+Lemma stored_recent_mono k v n m c : (n <= m)%nat -> stored_recent k v n c -> stored_recent k v m c.
+Proof. intros Hle (pre & post & H1 & H2 & H3). exists pre, post. repeat split; auto. lia. Qed.
+
+Lemma stored_recent_set cap c k v : stored_recent k v 0 (cache_set cap c k v).
+Proof.
+  unfold cache_set. eexists _, []. split; [reflexivity|].
+  split; [apply cache_find_remove_same | apply Nat.le_refl].
+Qed.
+
+Lemma stored_recent_touch k v n c k' v' :
+  k' <> k -> stored_recent k v n c ->
+  stored_recent k v (S n) (cache_remove k' c ++ [(k', v')]).
+Proof.
+  intros Hne (pre & post & -> & Hp & Hl).
+  exists (cache_remove k' pre), (cache_remove k' post ++ [(k', v')]).
+  split.
+  - rewrite cache_remove_app. unfold cache_remove at 2. cbn [filter fst].
+    assert ((k =? k') = false) as -> by (apply N.eqb_neq; congruence).
+    cbn [negb]. rewrite <- app_assoc. reflexivity.
+  - split; [apply cache_find_remove_none, Hp|].
+    rewrite app_length. cbn [length]. pose proof (cache_remove_length k' post). lia.
+Qed.
+
+(** Another key is written: the entry stays unless it is the least recently
+    used one of a full cache. *)
+Lemma stored_recent_other_set cap k v n c k' v' :
+  k' <> k -> (cap = 0 \/ N.of_nat (S n) < cap) ->
+  stored_recent k v n c -> stored_recent k v (S n) (cache_set cap c k' v').
+Proof.
+  intros Hne Hcap Hs. unfold cache_set.
+  apply stored_recent_touch; [exact Hne|].
+  destruct (N.of_nat (length c) =? cap) eqn:E; [|exact Hs].
+  apply N.eqb_eq in E. destruct Hs as (pre & post & -> & Hp & Hl).
+  destruct pre as [|[k0 v0] pre].
+  - exfalso. cbn [app length] in E. destruct Hcap as [->|Hlt]; lia.
+  - cbn [app tl]. exists pre, post. split; [reflexivity|]. split; [|exact Hl].
+    cbn [cache_find] in Hp. destruct (k0 =? k); [discriminate | exact Hp].
+Qed.
+
+Lemma stored_recent_other_get k v n c k' :
+  k' <> k -> stored_recent k v n c -> stored_recent k v (S n) (fst (cache_get c k')).
+Proof.
+  intros Hne Hs. unfold cache_get. destruct (cache_find k' c) as [v'|]; cbn [fst].
+  - apply stored_recent_touch; assumption.
+  - apply (stored_recent_mono k v n); [lia | exact Hs].
+Qed.
+
+(** ** One request *)
+
+(** The cache changes exactly when the request is let through with a
+    non-empty ClientID. *)
+Theorem before_step_cache cap a t x c :
+  fst (before_step cap a t x c) =
+  match handle_before_ctx a t x with
+  | BContinue (Some id) => cache_set cap c (cx_rid x) id
+  | _ => c
+  end.
+Proof. reflexivity. Qed.
+
+Theorem not_let_through_cache_unchanged cap a t x c :
+  ~ let_through (snd (before_step cap a t x c)) -> fst (before_step cap a t x c) = c.
+Proof.
+  unfold before_step. cbn [fst snd]. destruct (handle_before_ctx a t x) as [| | |o]; try reflexivity.
+  intros H. exfalso. apply H. exists o. reflexivity.
+Qed.
+
+(** What the hook returns, by cases on the extraction and the lists. *)
+Theorem handle_before_ctx_spec a t x :
+  match extract_clientid t x with
+  | None => handle_before_ctx a t x = BServfail /\ secure_proto (cx_proto x)
+  | Some id =>
+      (blocked_request a (cx_ip x) id (cx_q x) /\ handle_before_ctx a t x = pre_blocked (cx_proto x)) \/
+      (~ blocked_request a (cx_ip x) id (cx_q x) /\
+       handle_before_ctx a t x = BContinue (match id with [] => None | _ => Some id end))
+  end.
+Proof.
+  unfold handle_before_ctx. destruct (extract_clientid t x) as [id|] eqn:E.
+  - destruct (fst (is_blocked_client a (cx_ip x) id)) eqn:Ec.
+    + left. assert (Hb : blocked_request a (cx_ip x) id (cx_q x)) by (left; exact Ec).
+      split; [exact Hb | apply handle_before_blocked, Hb].
+    + destruct (cx_q x) as [[name qt]|] eqn:Eq.
+      * destruct (is_blocked_host a (normalize_domain name) qt) eqn:Eh.
+        -- left. assert (Hb : blocked_request a (cx_ip x) id (Some (name, qt))).
+           { right. exists name, qt. split; [reflexivity | exact Eh]. }
+           split; [exact Hb | apply handle_before_blocked, Hb].
+        -- right. assert (Hn : ~ blocked_request a (cx_ip x) id (Some (name, qt))).
+           { intros [H|(n' & q' & Hq & Hh)]; [unfold excluded in H; congruence|].
+             inversion Hq; subst. congruence. }
+           split; [exact Hn | apply handle_before_admitted, Hn].
+      * right. assert (Hn : ~ blocked_request a (cx_ip x) id None).
+        { intros [H|(n' & q' & Hq & _)]; [unfold excluded in H; congruence | discriminate]. }
+        split; [exact Hn | apply handle_before_admitted, Hn].
+  - split; [reflexivity | apply extraction_error_secure with t, E].
+Qed.
+
+Section ServeCtx.
+  Context {S Req Resp : Type}.
+  Variable handler : S -> bytes -> Req -> S * Resp.
+
+  (** An excluded client (by address or by the ClientID extracted from its
+      DoH path / DoT / DoQ server name) or a blocked name: the handler does
+      not run, the ClientID cache is unchanged, no reply over UDP / DNSCrypt
+      and REFUSED elsewhere. *)
+  Theorem blocked_ctx_not_served cap a t x id c st rq :
+    extract_clientid t x = Some id ->
+    blocked_request a (cx_ip x) id (cx_q x) ->
+    serve_ctx handler cap a t x c st rq = (st, c, expected_refusal (cx_proto x)).
+  Proof.
+    intros He Hb. unfold serve_ctx, before_step, handle_before_ctx. rewrite He.
+    rewrite (handle_before_blocked _ _ _ _ _ Hb). destruct (cx_proto x); reflexivity.
+  Qed.
+
+  (** A ClientID that cannot be extracted: SERVFAIL whatever the lists say
+      (also for an address the lists exclude), nothing runs, the cache is
+      unchanged; this happens over DoT / DoH / DoQ only. *)
+  Theorem extraction_error_not_served cap a t x c st rq :
+    extract_clientid t x = None ->
+    serve_ctx handler cap a t x c st rq = (st, c, Servfail) /\ secure_proto (cx_proto x).
+  Proof.
+    intros He. split; [|apply extraction_error_secure with t, He].
+    unfold serve_ctx, before_step, handle_before_ctx. rewrite He. reflexivity.
+  Qed.
+
+  (** Everything else is served, and the handler is given exactly the
+      extracted ClientID: processInitial reads back what HandleBefore wrote
+      for this request id (for a request without ClientID: provided no entry
+      with its id is in the cache, which dnsproxy's request counter ensures). *)
+  Theorem admitted_ctx_served cap a t x id c st rq :
+    extract_clientid t x = Some id ->
+    ~ blocked_request a (cx_ip x) id (cx_q x) ->
+    (id = [] -> cache_find (cx_rid x) c = None) ->
+    exists c',
+      serve_ctx handler cap a t x c st rq =
+        (fst (handler st id rq), c', Answer (snd (handler st id rq))) /\
+      (id = [] -> c' = c) /\
+      (id <> [] -> cache_find (cx_rid x) c' = Some id).
+  Proof.
+    intros He Hn Hfresh. unfold serve_ctx, before_step, handle_before_ctx. rewrite He.
+    rewrite (handle_before_admitted _ _ _ _ _ Hn). destruct id as [|b id'].
+    - unfold initial_read. rewrite (cache_get_miss _ _ (Hfresh eq_refl)).
+      destruct (handler st [] rq) as [st' r]. exists c. cbn [fst snd].
+      split; [reflexivity|]. split; [reflexivity | congruence].
+    - set (id := b :: id') in *. unfold initial_read.
+      pose proof (cache_get_hit _ _ _ (cache_find_set_same cap c (cx_rid x) id)) as [Hv Hf].
+      destruct (cache_get (cache_set cap c (cx_rid x) id) (cx_rid x)) as [c2 v]. cbn [fst snd] in Hv, Hf.
+      subst v. destruct (handler st id rq) as [st' r]. exists c2. cbn [fst snd].
+      split; [reflexivity|]. split; [discriminate | intros _; exact Hf].
+  Qed.
+End ServeCtx.
+
+(** ** Interleaved requests *)
+
+Definition hop_rid (o : hop) : N := match o with HBefore x => cx_rid x | HInitial r => r end.
+
+Lemma stored_recent_hist_step cap a t k v n c o :
+  hop_rid o <> k -> (cap = 0 \/ N.of_nat (S n) < cap) ->
+  stored_recent k v n c -> stored_recent k v (S n) (fst (hist_step cap a t c o)).
+Proof.
+  intros Hne Hcap Hs. destruct o as [x|r]; cbn [hop_rid] in Hne.
+  - unfold hist_step, before_step.
+    destruct (handle_before_ctx a t x) as [| | |[id|]]; cbn [fst];
+      try (apply (stored_recent_mono k v n); [lia | exact Hs]).
+    apply stored_recent_other_set; assumption.
+  - unfold hist_step, initial_read.
+    pose proof (stored_recent_other_get k v n c r Hne Hs) as H.
+    destruct (cache_get c r) as [c' o]. exact H.
+Qed.
+
+Lemma run_hist_cons cap a t c o ops :
+  fst (run_hist cap a t c (o :: ops)) = fst (run_hist cap a t (fst (hist_step cap a t c o)) ops).
+Proof.
+  cbn [run_hist]. destruct (hist_step cap a t c o) as [c1 ob]. cbn [fst].
+  destruct (run_hist cap a t c1 ops) as [c2 obs]. reflexivity.
+Qed.
+
+Lemma stored_recent_run_hist cap a t k v ops : forall n c,
+  Forall (fun o => hop_rid o <> k) ops ->
+  (cap = 0 \/ N.of_nat (n + length ops) < cap) ->
+  stored_recent k v n c ->
+  cache_find k (fst (run_hist cap a t c ops)) = Some v.
+Proof.
+  induction ops as [|o ops IH]; intros n c Hall Hcap Hs.
+  - cbn. apply stored_recent_find with n, Hs.
+  - rewrite run_hist_cons. inversion Hall as [|? ? Ho Hrest]; subst.
+    apply (IH (Datatypes.S n)).
+    + exact Hrest.
+    + cbn [length] in Hcap. destruct Hcap as [->|H]; [left; reflexivity | right; lia].
+    + apply stored_recent_hist_step; [exact Ho | | exact Hs].
+      cbn [length] in Hcap. destruct Hcap as [->|H]; [left; reflexivity | right; lia].
+Qed.
+
+(** The ClientID written for a request survives any interleaving of fewer
+    than [cap] hooks and reads of other requests (any number for an unbounded
+    cache): processInitial then reads exactly that ClientID. *)
+Theorem clientid_survives_interleaving cap a t x id c ops :
+  handle_before_ctx a t x = BContinue (Some id) ->
+  Forall (fun o => hop_rid o <> cx_rid x) ops ->
+  (cap = 0 \/ N.of_nat (length ops) < cap) ->
+  snd (initial_read (fst (run_hist cap a t (fst (before_step cap a t x c)) ops)) (cx_rid x)) = id.
+Proof.
+  intros Hb Hall Hcap.
+  assert (Hf : cache_find (cx_rid x)
+                 (fst (run_hist cap a t (fst (before_step cap a t x c)) ops)) = Some id).
+  { apply (stored_recent_run_hist cap a t (cx_rid x) id ops 0); [exact Hall | exact Hcap |].
+    rewrite before_step_cache, Hb. apply stored_recent_set. }
+  unfold initial_read. destruct (cache_get_hit _ _ _ Hf) as [Hv _].
+  destruct (cache_get _ (cx_rid x)) as [c' v]. cbn [snd] in *. subst v. reflexivity.
+Qed.
+
+(** ** Extraction composed with the decision *)
+
+Lemma cid_listed_excluded blocked hosts ip id :
+  cid_listed blocked id -> excluded (new_access [] blocked hosts) ip id.
+Proof.
+  intros Hc. destruct ip as [ip|].
+  - apply blocklist_mode_spec. right. exact Hc.
+  - pose proof Hc as [Hne _]. apply (cid_mem_load blocked id Hne) in Hc.
+    unfold excluded, is_blocked_client, is_blocked_clientid.
+    assert (Halm : allowlist_mode (new_access [] blocked hosts) = false) by reflexivity.
+    rewrite Halm. cbn [negb andb orb]. destruct id as [|b id']; [congruence|].
+    change (ac_blocked (new_access [] blocked hosts)) with (load_side blocked). rewrite Hc. reflexivity.
+Qed.
+
+Lemma valid_label_lower_nonempty l : Base.Dom.valid_label l -> lower l <> [].
+Proof. intros [H _]. destruct l; [congruence | discriminate]. Qed.
+
+Lemma same_clientid_listed l c0 entries :
+  Base.Dom.valid_label l -> In (ECid c0) entries -> lower c0 = lower l -> cid_listed entries (lower l).
+Proof.
+  intros Hv Hin He. split; [apply valid_label_lower_nonempty, Hv|]. exists c0. split; assumption.
+Qed.
+
+(** Extraction facts of C16 restated for [extract_clientid]. *)
+Lemma extract_doh_path t sni r ip q rid l :
+  CIDP.path_id (CID.d_path r) l -> Base.Dom.valid_label l ->
+  extract_clientid t (mkCtx PHTTPS sni (Some r) ip q rid) = Some (lower l).
+Proof.
+  intros Hp Hv. unfold extract_clientid. cbn [cx_proto cx_sni cx_http cid_proto].
+  rewrite (CIDP.valid_path_attributed _ _ _ _ _ Hp Hv). reflexivity.
+Qed.
+
+Lemma extract_server_name t x cli l :
+  CIDP.reaches_sni (cid_proto (cx_proto x)) (cx_http x) -> tc_server_name t <> [] ->
+  CID.server_name_of (cid_proto (cx_proto x)) (cx_sni x) (cx_http x) = inr cli ->
+  CIDP.immediate_sub cli (tc_server_name t) l -> Base.Dom.valid_label l ->
+  extract_clientid t x = Some (lower l).
+Proof.
+  intros Hr Hh Hs Hi Hv. unfold extract_clientid.
+  rewrite (CIDP.valid_sni_attributed _ _ _ _ _ _ _ Hr Hh Hs Hi Hv). reflexivity.
+Qed.
+
+Lemma reaches_sni_refused x :
+  CIDP.reaches_sni (cid_proto (cx_proto x)) (cx_http x) -> pre_blocked (cx_proto x) = BRefused.
+Proof.
+  intros [H|[H|[H _]]]; destruct (cx_proto x); try discriminate; reflexivity.
+Qed.
+
+(** A disallowed ClientID presented in the DoH path, in any letter case, is
+    answered REFUSED whatever the address is. *)
+Theorem disallowed_clientid_doh_path_refused blocked hosts t sni r ip q rid l c0 :
+  CIDP.path_id (CID.d_path r) l -> Base.Dom.valid_label l ->
+  In (ECid c0) blocked -> lower c0 = lower l ->
+  handle_before_ctx (new_access [] blocked hosts) t (mkCtx PHTTPS sni (Some r) ip q rid) = BRefused.
+Proof.
+  intros Hp Hv Hin He. unfold handle_before_ctx. rewrite (extract_doh_path _ _ _ _ _ _ _ Hp Hv).
+  cbn [cx_proto cx_ip cx_q].
+  rewrite handle_before_blocked; [reflexivity|]. left.
+  apply cid_listed_excluded, same_clientid_listed with c0; assumption.
+Qed.
+
+(** The same for a ClientID presented as the label in front of the configured
+    server name: DoT / DoQ connection, or a DoH request to /dns-query through
+    its TLS server name or Host header. *)
+Theorem disallowed_clientid_server_name_refused blocked hosts t x cli l c0 :
+  CIDP.reaches_sni (cid_proto (cx_proto x)) (cx_http x) -> tc_server_name t <> [] ->
+  CID.server_name_of (cid_proto (cx_proto x)) (cx_sni x) (cx_http x) = inr cli ->
+  CIDP.immediate_sub cli (tc_server_name t) l -> Base.Dom.valid_label l ->
+  In (ECid c0) blocked -> lower c0 = lower l ->
+  handle_before_ctx (new_access [] blocked hosts) t x = BRefused.
+Proof.
+  intros Hr Hh Hs Hi Hv Hin He. unfold handle_before_ctx.
+  rewrite (extract_server_name _ _ _ _ Hr Hh Hs Hi Hv).
+  rewrite handle_before_blocked; [apply reaches_sni_refused, Hr|]. left.
+  apply cid_listed_excluded, same_clientid_listed with c0; assumption.
+Qed.
+
+(** Allow-list mode: a listed ClientID presented in any letter case admits
+    the request from any address (unless the name is blocked), and it is that
+    ClientID, lower-cased, that goes into the cache. *)
+Theorem allowed_clientid_admitted allowed blocked hosts t x ip l c0 :
+  extract_clientid t x = Some (lower l) -> Base.Dom.valid_label l ->
+  In (ECid c0) allowed -> lower c0 = lower l -> cx_ip x = Some ip ->
+  (forall name qt, cx_q x = Some (name, qt) ->
+     is_blocked_host (new_access allowed blocked hosts) (normalize_domain name) qt = false) ->
+  handle_before_ctx (new_access allowed blocked hosts) t x = BContinue (Some (lower l)).
+Proof.
+  intros He Hv Hin Hl Hip Hq. unfold handle_before_ctx. rewrite He, Hip.
+  rewrite handle_before_admitted.
+  - pose proof (valid_label_lower_nonempty l Hv). destruct (lower l); [congruence | reflexivity].
+  - intros [Hx|(name & qt & Hqq & Hh)].
+    + assert (Hne : has_entries allowed) by (intros ->; destruct Hin).
+      assert (Ha : admitted (new_access allowed blocked hosts) (Some ip) (lower l)).
+      { apply allowlist_mode_spec; [exact Hne|]. right.
+        apply same_clientid_listed with c0; assumption. }
+      unfold admitted in Ha. unfold excluded in Hx. congruence.
+    + rewrite (Hq _ _ Hqq) in Hh. discriminate.
+Qed.
+
+(** An invalid ClientID is answered SERVFAIL before the lists are consulted:
+    also a request whose address the lists exclude gets SERVFAIL (not
+    REFUSED); it is never let through. *)
+Theorem invalid_clientid_servfail a t sni r ip q rid l :
+  CIDP.path_id (CID.d_path r) l -> ~ Base.Dom.valid_label l ->
+  handle_before_ctx a t (mkCtx PHTTPS sni (Some r) ip q rid) = BServfail.
+Proof.
+  intros Hp Hv. unfold handle_before_ctx, extract_clientid. cbn [cx_proto cx_sni cx_http cid_proto].
+  destruct (CIDP.invalid_path_fails (tc_server_name t) (tc_strict t) sni r l Hp Hv) as [e ->].
+  reflexivity.
+Qed.
+
+Theorem invalid_server_name_servfail a t x cli l :
+  CIDP.reaches_sni (cid_proto (cx_proto x)) (cx_http x) -> tc_server_name t <> [] ->
+  CID.server_name_of (cid_proto (cx_proto x)) (cx_sni x) (cx_http x) = inr cli ->
+  CIDP.immediate_sub cli (tc_server_name t) l -> ~ Base.Dom.valid_label l ->
+  handle_before_ctx a t x = BServfail.
+Proof.
+  intros Hr Hh Hs Hi Hv. unfold handle_before_ctx, extract_clientid.
+  destruct (CIDP.invalid_sni_fails _ _ (tc_strict t) _ _ _ _ Hr Hh Hs Hi Hv) as [e ->].
+  reflexivity.
+Qed.
+
+(** Plain DNS and DNSCrypt: whatever else the context carries, the decision
+    is the one for a request without ClientID. *)
+Theorem plain_protocol_decision a t x :
+  ~ secure_proto (cx_proto x) ->
+  handle_before_ctx a t x = handle_before a (cx_proto x) (Some []) (cx_ip x) (cx_q x).
+Proof. intros H. unfold handle_before_ctx. rewrite (plain_no_clientid t x H). reflexivity. Qed.
+
+(** ** Non-vacuity *)
+
+Definition ex_srv : bytes := [100;110;115;46;101;120].                      (* dns.ex *)
+Definition ex_tls : tlsconf := mkTlsConf ex_srv true.
+Definition ex_sni : bytes := [75;105;68;46] ++ ex_srv.                      (* KiD.dns.ex *)
+Definition ex_bad_sni : bytes := [98;95;100;46] ++ ex_srv.                  (* b_d.dns.ex *)
+Definition ex_kid : bytes := [107;73;100].                                  (* kId *)
+Definition ex_doh : CID.doh_req :=
+  mk_doh ([47] ++ CID.dns_query ++ [47;75;105;68]) None [].                  (* /dns-query/KiD *)
+Definition ex_dot_ctx (sni : bytes) (rid : N) : dnsctx :=
+  mkCtx PTLS (Some sni) None (Some ex_ip) None rid.
+
+Example ex_valid_kid : Base.Dom.valid_label [75;105;68].
+Proof. apply Base.Dom.validate_hostname_label_spec. reflexivity. Qed.
+
+Example disallowed_doh_path_satisfiable :
+  CIDP.path_id (CID.d_path ex_doh) [75;105;68] /\ Base.Dom.valid_label [75;105;68] /\
+  In (ECid ex_kid) [ECid ex_kid] /\ lower ex_kid = lower [75;105;68].
+Proof.
+  split; [split; [left|]; reflexivity|]. split; [exact ex_valid_kid|].
+  split; [left|]; reflexivity.
+Qed.
+
+Example disallowed_server_name_satisfiable :
+  CIDP.reaches_sni (cid_proto (cx_proto (ex_dot_ctx ex_sni 7))) (cx_http (ex_dot_ctx ex_sni 7)) /\
+  tc_server_name ex_tls <> [] /\
+  CID.server_name_of (cid_proto PTLS) (Some ex_sni) None = inr ex_sni /\
+  CIDP.immediate_sub ex_sni (tc_server_name ex_tls) [75;105;68] /\
+  handle_before_ctx (new_access [] [ECid ex_kid] []) ex_tls (ex_dot_ctx ex_sni 7) = BRefused /\
+  handle_before_ctx (new_access [] [ECid ex_kid] []) ex_tls
+    (mkCtx PHTTPS None (Some ex_doh) (Some ex_ip) None 8) = BRefused.
+Proof.
+  split; [left; reflexivity|]. split; [discriminate|]. split; [reflexivity|].
+  split; [repeat split; discriminate|]. split; reflexivity.
+Qed.
+
+Example allowed_clientid_satisfiable :
+  extract_clientid ex_tls (ex_dot_ctx ex_sni 7) = Some (lower [75;105;68]) /\
+  handle_before_ctx (new_access [ECid ex_kid] [EIP ex_ip] []) ex_tls (ex_dot_ctx ex_sni 7) =
+    BContinue (Some [107;105;100]).
+Proof. split; reflexivity. Qed.
+
+Example invalid_clientid_satisfiable :
+  CIDP.immediate_sub ex_bad_sni ex_srv [98;95;100] /\ ~ Base.Dom.valid_label [98;95;100] /\
+  extract_clientid ex_tls (ex_dot_ctx ex_bad_sni 7) = None /\
+  handle_before_ctx (new_access [] [EIP ex_ip] []) ex_tls (ex_dot_ctx ex_bad_sni 7) = BServfail.
+Proof.
+  split; [repeat split; discriminate|].
+  split; [rewrite <- Base.Dom.validate_hostname_label_spec; discriminate|].
+  split; reflexivity.
+Qed.
+
+Example blocked_ctx_satisfiable :
+  extract_clientid ex_tls (ex_dot_ctx ex_sni 7) = Some [107;105;100] /\
+  blocked_request (new_access [] [ECid ex_kid] []) (Some ex_ip) [107;105;100] None /\
+  ~ blocked_request (new_access [] [ECid ex_cid] []) (Some ex_ip) [107;105;100] None.
+Proof.
+  split; [reflexivity|]. split; [left; reflexivity|].
+  intros [H|(n & qt & Hq & _)]; discriminate.
+Qed.
+
+(** The window of [clientid_survives_interleaving] cannot be widened: with a
+    cache of two entries, two other admitted requests with ClientIDs between
+    the hook and processInitial make the request lose its ClientID (the real
+    cache holds 1024 entries). *)
+Example interleaving_window_tight :
+  let a := new_access [] [] [] in
+  let x := ex_dot_ctx ex_sni 1 in
+  let ops := [HBefore (ex_dot_ctx ex_sni 2); HBefore (ex_dot_ctx ex_sni 3)] in
+  handle_before_ctx a ex_tls x = BContinue (Some [107;105;100]) /\
+  Forall (fun o => hop_rid o <> cx_rid x) ops /\
+  N.of_nat (length ops) = 2 /\
+  snd (initial_read (fst (run_hist 2 a ex_tls (fst (before_step 2 a ex_tls x [])) ops)) (cx_rid x)) = [] /\
+  snd (initial_read (fst (run_hist 3 a ex_tls (fst (before_step 3 a ex_tls x [])) ops)) (cx_rid x)) = [107;105;100].
+Proof.
+  cbv zeta. split; [reflexivity|]. split; [repeat constructor; discriminate|].
+  split; [reflexivity|]. split; vm_compute; reflexivity.
 Qed.
